@@ -110,6 +110,33 @@ class Summaries:
                                 self.release[f.name].add(pi)
                                 changed = True
 
+    def close_alloc_funcs(self):
+        """allocating helpers: functions that return a locally allocated block (fixpoint over three rounds)"""
+        prog = self.prog
+        for _round in range(3):
+            grew = False
+            for f in prog.funcs.values():
+                if not f.ret_type.rstrip().endswith("*") or f.name in self.alloc_funcs:
+                    continue
+                for b, i, e in f.calls():
+                    if not self.is_alloc_call(e):
+                        continue
+                    if e.get("use") == "returned":
+                        self.alloc_funcs.add(f.name)    # `return helper(...)`: hands the fresh block straight on
+                        grew = True
+                        break
+                    group, esc = holders_of_site(f, b, i, e)
+                    if not group or esc:
+                        continue
+                    # does some return hand back a holder that still owns the block (not linked anywhere else)?
+                    finds, _, _ = walk_site(f, b, i, e, self, "owned")
+                    if any(x["kind"] == "returned-owned" for x in finds):
+                        self.alloc_funcs.add(f.name)
+                        grew = True
+                        break
+            if not grew:
+                break
+
     def is_alloc_call(self, e):
         cal = e.get("callee")
         if cal in ("malloc", "calloc", "strdup"):
